@@ -35,6 +35,17 @@ fn main() {
         "diff" => cmd_diff(&args),
         "dump" => cmd_dump(&args),
         "procenum" => cmd_procenum(&args),
+        "valenum" => {
+            let what = args.get(2).map(|s| s.as_str()).unwrap_or("");
+            let (n, bad): (u64, Vec<String>) = match what {
+                "results" => valenum::enum_actor_results(),
+                "errors" => valenum::enum_errors(),
+                #[cfg(feature = "f_deadlock")]
+                "graphs" => valenum::enum_graphs(args.get(3).and_then(|s| s.parse().ok()).unwrap_or(5)),
+                _ => (0, vec!["unknown enumeration (graphs needs the f_deadlock build)".into()]),
+            };
+            println!("{}", serde_json::json!({"what": what, "cases": n, "disagreements": bad}));
+        }
         "bthreads" => cmd_bthreads(&args),
         "bthreads-replay" => {
             let text = std::fs::read_to_string(&args[2]).expect("read");
